@@ -14,5 +14,6 @@ CONSTANTS
   Atomic = TRUE
   CallbacksUnderQueueLock = FALSE
   CountCooldowns = FALSE
+  FreshChannelOnWake = FALSE
 VIEW view
 INVARIANTS NoEarlyReturn
